@@ -26,10 +26,11 @@ var inlinedSites = map[types.Object]int{}
 // an addressable value passed for a pointer receiver is substituted as `&value`, as the language does. Inside generic
 // code a body that calls methods or generic functions is left alone (the call cannot be re-targeted to the caller's
 // instantiation).
-func inlineHelpers(info *types.Info, files []*ast.File) {
+func inlineHelpers(fset *token.FileSet, tpkg *types.Package, info *types.Info, files []*ast.File) {
 	type cand struct {
 		expr    ast.Expr // `return expr`
 		stmt    ast.Stmt // or the single statement of a function without results
+		block   []ast.Stmt // or a short body of plain statements, guard clauses and loops (no result)
 		params  []types.Object // receiver first for methods; nil entries for unnamed ones
 		ptypes  []types.Type
 		hasRecv bool
@@ -122,11 +123,121 @@ func inlineHelpers(info *types.Info, files []*ast.File) {
 		}
 		return false
 	}
+	// a short procedure body: plain statements, local definitions, ifs and loops over them, guard clauses
+	// (`if c { return }` at the top level) and a final bare return
+	var plainList func(list []ast.Stmt, inLoop bool, depth int) bool
+	plainStmt := func(st ast.Stmt, inLoop bool, depth int) bool {
+		if depth > 3 {
+			return false
+		}
+		switch x := st.(type) {
+		case *ast.AssignStmt:
+			for _, e := range x.Lhs {
+				if !pure(e) {
+					return false
+				}
+			}
+			for _, e := range x.Rhs {
+				if !pure(e) {
+					return false
+				}
+			}
+			return true
+		case *ast.IncDecStmt, *ast.ExprStmt, *ast.SendStmt:
+			return pureStmt(st)
+		case *ast.BranchStmt:
+			return inLoop && x.Label == nil && (x.Tok == token.BREAK || x.Tok == token.CONTINUE)
+		case *ast.IfStmt:
+			if x.Init != nil || !pure(x.Cond) || !plainList(x.Body.List, inLoop, depth+1) {
+				return false
+			}
+			switch e := x.Else.(type) {
+			case nil:
+				return true
+			case *ast.BlockStmt:
+				return plainList(e.List, inLoop, depth+1)
+			}
+			return false
+		case *ast.ForStmt:
+			if x.Init != nil && !pureStmt(x.Init) {
+				if as, isAs := x.Init.(*ast.AssignStmt); !isAs || as.Tok != token.DEFINE {
+					return false
+				}
+			}
+			if x.Post != nil && !pureStmt(x.Post) {
+				return false
+			}
+			return pure(x.Cond) && plainList(x.Body.List, true, depth+1)
+		case *ast.RangeStmt:
+			for _, e := range []ast.Expr{x.Key, x.Value} {
+				if e != nil {
+					if _, isID := e.(*ast.Ident); !isID {
+						return false
+					}
+				}
+			}
+			return pure(x.X) && plainList(x.Body.List, true, depth+1)
+		}
+		return false
+	}
+	plainList = func(list []ast.Stmt, inLoop bool, depth int) bool {
+		for _, st := range list {
+			if !plainStmt(st, inLoop, depth) {
+				return false
+			}
+		}
+		return true
+	}
+	isGuard := func(st ast.Stmt) bool {
+		iff, ok := st.(*ast.IfStmt)
+		if !ok || iff.Init != nil || iff.Else != nil || len(iff.Body.List) != 1 || !pure(iff.Cond) {
+			return false
+		}
+		r, isR := iff.Body.List[0].(*ast.ReturnStmt)
+		return isR && len(r.Results) == 0
+	}
+	procBody := func(list []ast.Stmt) bool {
+		if n := len(list); n > 0 {
+			if r, isR := list[n-1].(*ast.ReturnStmt); isR && len(r.Results) == 0 {
+				list = list[:n-1]
+			}
+		}
+		if len(list) < 1 || len(list) > 8 {
+			return false
+		}
+		for _, st := range list {
+			if isGuard(st) {
+				continue
+			}
+			if !plainStmt(st, false, 0) {
+				return false
+			}
+		}
+		return true
+	}
+	components := map[*types.TypeName]bool{}
+	for _, obj := range info.Defs {
+		tn, isTN := obj.(*types.TypeName)
+		if !isTN {
+			continue
+		}
+		st, isSt := tn.Type().Underlying().(*types.Struct)
+		if !isSt {
+			continue
+		}
+		for i := 0; i < st.NumFields(); i++ {
+			if n, isN := st.Field(i).Type().(*types.Named); isN && !n.Obj().Exported() && n.Obj().Pkg() == tn.Pkg() {
+				if _, inner := n.Underlying().(*types.Struct); inner {
+					components[n.Origin().Obj()] = true
+				}
+			}
+		}
+	}
 	cands := map[*types.Func]*cand{}
 	for _, f := range files {
 		for _, d := range f.Decls {
 			fd, ok := d.(*ast.FuncDecl)
-			if !ok || fd.Body == nil || len(fd.Body.List) != 1 {
+			if !ok || fd.Body == nil || len(fd.Body.List) < 1 {
 				continue
 			}
 			fo, isF := info.Defs[fd.Name].(*types.Func)
@@ -162,7 +273,14 @@ func inlineHelpers(info *types.Info, files []*ast.File) {
 			}
 			cd := &cand{}
 			var body ast.Node
-			if sig.Results().Len() == 1 {
+			if len(fd.Body.List) > 1 || sig.Results().Len() == 0 && !pureStmt(fd.Body.List[0]) {
+				// only the procedures of a component: an unexported struct type held by value as a field of another struct
+				// (`inbox mailbox[T]`, an embedded `corState`) - its methods are pieces of the owner's methods
+				if sig.Results().Len() != 0 || !procBody(fd.Body.List) || sig.Recv() == nil || !components[recvNamed(sig.Recv().Type())] {
+					continue
+				}
+				cd.block, body = fd.Body.List, fd.Body
+			} else if sig.Results().Len() == 1 {
 				ret, isR := fd.Body.List[0].(*ast.ReturnStmt)
 				if !isR || len(ret.Results) != 1 || !pure(ret.Results[0]) {
 					continue
@@ -216,7 +334,7 @@ func inlineHelpers(info *types.Info, files []*ast.File) {
 			}
 			// a statement working on a struct it received BY VALUE works on a copy (`func (l lifecycle) markDone()
 			// { l.closed.Set(true) }` changes nothing): substituting the operand would make it work on the original
-			if cd.stmt != nil {
+			if cd.stmt != nil || cd.block != nil {
 				byValue := false
 				for _, pt := range cd.ptypes {
 					if _, isStruct := pt.Underlying().(*types.Struct); isStruct {
@@ -295,6 +413,7 @@ func inlineHelpers(info *types.Info, files []*ast.File) {
 		return ta && tb
 	}
 	var tsub map[*types.TypeParam]types.Type
+	varMap := map[types.Object]*types.Var{}
 	var clone func(e ast.Expr, subst map[types.Object]ast.Expr) ast.Expr
 	cloneIdent := func(x *ast.Ident) *ast.Ident {
 		n := *x
@@ -320,6 +439,19 @@ func inlineHelpers(info *types.Info, files []*ast.File) {
 				if r, ok := subst[o]; ok {
 					return r
 				}
+				if nv, ok := varMap[o]; ok {
+					n := cloneIdent(x)
+					info.Uses[n] = nv
+					return n
+				}
+			}
+			if d, isDef := info.Defs[x].(*types.Var); isDef && d != nil {
+				// a local defined by the copied statement: a variable of its own, typed for this instantiation
+				nv := types.NewVar(d.Pos(), d.Pkg(), d.Name(), substType(d.Type(), tsub))
+				varMap[d] = nv
+				n := cloneIdent(x)
+				info.Defs[n] = nv
+				return n
 			}
 			return cloneIdent(x)
 		case *ast.BasicLit:
@@ -390,8 +522,50 @@ func inlineHelpers(info *types.Info, files []*ast.File) {
 		}
 		return out
 	}
-	cloneStmt := func(s ast.Stmt, subst map[types.Object]ast.Expr) ast.Stmt {
+	var cloneStmt func(s ast.Stmt, subst map[types.Object]ast.Expr) ast.Stmt
+	cloneList := func(list []ast.Stmt, subst map[types.Object]ast.Expr) []ast.Stmt {
+		out := make([]ast.Stmt, 0, len(list))
+		for _, st := range list {
+			if c2 := cloneStmt(st, subst); c2 != nil {
+				out = append(out, c2)
+			}
+		}
+		return out
+	}
+	cloneStmt = func(s ast.Stmt, subst map[types.Object]ast.Expr) ast.Stmt {
 		switch x := s.(type) {
+		case *ast.BlockStmt:
+			n := *x
+			n.List = cloneList(x.List, subst)
+			return &n
+		case *ast.BranchStmt:
+			n := *x
+			return &n
+		case *ast.IfStmt:
+			n := *x
+			n.Cond = clone(x.Cond, subst)
+			n.Body = cloneStmt(x.Body, subst).(*ast.BlockStmt)
+			if x.Else != nil {
+				n.Else = cloneStmt(x.Else, subst)
+			}
+			return &n
+		case *ast.ForStmt:
+			n := *x
+			if x.Init != nil {
+				n.Init = cloneStmt(x.Init, subst)
+			}
+			n.Cond = clone(x.Cond, subst)
+			if x.Post != nil {
+				n.Post = cloneStmt(x.Post, subst)
+			}
+			n.Body = cloneStmt(x.Body, subst).(*ast.BlockStmt)
+			return &n
+		case *ast.RangeStmt:
+			n := *x
+			n.X = clone(x.X, subst)
+			n.Key, n.Value = clone(x.Key, subst), clone(x.Value, subst)
+			n.Body = cloneStmt(x.Body, subst).(*ast.BlockStmt)
+			return &n
 		case *ast.AssignStmt:
 			n := *x
 			n.Lhs = make([]ast.Expr, len(x.Lhs))
@@ -469,10 +643,51 @@ func inlineHelpers(info *types.Info, files []*ast.File) {
 		case *ast.SelectorExpr:
 			id = x.Sel
 			if sel, isSel := info.Selections[x]; isSel {
-				if sel.Kind() != types.MethodVal || len(sel.Index()) != 1 {
+				if sel.Kind() != types.MethodVal {
 					return nil, nil
 				}
 				recv = x.X
+				if n := len(sel.Index()); n > 1 {
+					// a method promoted from an embedded component: the receiver is the embedded field, written out
+					// (`h.deliver(fn)` is `h.mailbox.deliver(fn)`); the new selection is type-checked in place
+					if !simple(x.X) || fset == nil || tpkg == nil {
+						return nil, nil
+					}
+					var fresh func(e ast.Expr) ast.Expr
+					fresh = func(e ast.Expr) ast.Expr {
+						switch y := e.(type) {
+						case *ast.Ident:
+							return &ast.Ident{NamePos: y.NamePos, Name: y.Name}
+						case *ast.ParenExpr:
+							return fresh(y.X)
+						case *ast.SelectorExpr:
+							return &ast.SelectorExpr{X: fresh(y.X), Sel: &ast.Ident{NamePos: y.Sel.NamePos, Name: y.Sel.Name}}
+						case *ast.StarExpr:
+							return &ast.StarExpr{Star: y.Star, X: fresh(y.X)}
+						}
+						return nil
+					}
+					cur := fresh(x.X)
+					t := info.Types[x.X].Type
+					for _, fi := range sel.Index()[:n-1] {
+						if cur == nil || t == nil {
+							return nil, nil
+						}
+						if pt, isP := t.Underlying().(*types.Pointer); isP {
+							t = pt.Elem()
+						}
+						st, isSt := t.Underlying().(*types.Struct)
+						if !isSt || fi >= st.NumFields() {
+							return nil, nil
+						}
+						cur = &ast.SelectorExpr{X: cur, Sel: &ast.Ident{NamePos: x.Sel.NamePos, Name: st.Field(fi).Name()}}
+						t = st.Field(fi).Type()
+					}
+					if cur == nil || types.CheckExpr(fset, tpkg, x.Pos(), cur, info) != nil {
+						return nil, nil
+					}
+					recv = cur
+				}
 			}
 		}
 		if id == nil {
@@ -492,34 +707,6 @@ func inlineHelpers(info *types.Info, files []*ast.File) {
 		}
 		if len(args) != len(cd.params) {
 			return nil, nil
-		}
-		subst := map[types.Object]ast.Expr{}
-		for i, a := range args {
-			tv, okT := info.Types[a]
-			if !simple(a) || !okT || tv.Type == nil {
-				return nil, nil
-			}
-			use := a
-			if !sameShape(tv.Type, cd.ptypes[i]) {
-				// the implicit & of a method call on an addressable value / the implicit * on a pointer
-				pp, isPP := cd.ptypes[i].(*types.Pointer)
-				ap, isAP := tv.Type.(*types.Pointer)
-				switch {
-				case i == 0 && recv != nil && isPP && sameShape(tv.Type, pp.Elem()) && tv.Addressable():
-					u := &ast.UnaryExpr{OpPos: a.Pos(), Op: token.AND, X: a}
-					info.Types[u] = types.TypeAndValue{Type: types.NewPointer(tv.Type)}
-					use = u
-				case i == 0 && recv != nil && isAP && sameShape(ap.Elem(), cd.ptypes[i]):
-					u := &ast.StarExpr{Star: a.Pos(), X: a}
-					info.Types[u] = types.TypeAndValue{Type: ap.Elem()}
-					use = u
-				default:
-					return nil, nil
-				}
-			}
-			if cd.params[i] != nil {
-				subst[cd.params[i]] = use
-			}
 		}
 		// type parameters of the helper read as the type arguments of this call
 		tsub = map[*types.TypeParam]types.Type{}
@@ -546,10 +733,72 @@ func inlineHelpers(info *types.Info, files []*ast.File) {
 				tsub[tp.At(i)] = inst.TypeArgs.At(i)
 			}
 		}
+		subst := map[types.Object]ast.Expr{}
+		for i, a := range args {
+			tv, okT := info.Types[a]
+			if lit, isLit := a.(*ast.FuncLit); isLit && okT && cd.block != nil && cd.params[i] != nil {
+				// a callback written on the spot for a parameter the body only calls: substituted as it is (creating a
+				// closure has no effect of its own)
+				onlyCalled := true
+				calls := 0
+				var visit func(n ast.Node, parent ast.Node)
+				ast.Inspect(&ast.BlockStmt{List: cd.block}, func(n ast.Node) bool {
+					if ce, isCE := n.(*ast.CallExpr); isCE {
+						if id, isID := ce.Fun.(*ast.Ident); isID && info.Uses[id] == cd.params[i] {
+							calls++
+						}
+					}
+					return true
+				})
+				uses := 0
+				ast.Inspect(&ast.BlockStmt{List: cd.block}, func(n ast.Node) bool {
+					if id, isID := n.(*ast.Ident); isID && info.Uses[id] == cd.params[i] {
+						uses++
+					}
+					return true
+				})
+				_ = visit
+				if uses != calls {
+					onlyCalled = false
+				}
+				if !onlyCalled {
+					return nil, nil
+				}
+				subst[cd.params[i]] = lit
+				continue
+			}
+			if !simple(a) || !okT || tv.Type == nil {
+				return nil, nil
+			}
+			use := a
+			if !sameShape(tv.Type, cd.ptypes[i]) && !types.Identical(tv.Type, substType(cd.ptypes[i], tsub)) {
+				// the implicit & of a method call on an addressable value / the implicit * on a pointer
+				pp, isPP := cd.ptypes[i].(*types.Pointer)
+				ap, isAP := tv.Type.(*types.Pointer)
+				switch {
+				case i == 0 && recv != nil && isPP && sameShape(tv.Type, pp.Elem()) && tv.Addressable():
+					u := &ast.UnaryExpr{OpPos: a.Pos(), Op: token.AND, X: a}
+					info.Types[u] = types.TypeAndValue{Type: types.NewPointer(tv.Type)}
+					use = u
+				case i == 0 && recv != nil && isAP && sameShape(ap.Elem(), cd.ptypes[i]):
+					u := &ast.StarExpr{Star: a.Pos(), X: a}
+					info.Types[u] = types.TypeAndValue{Type: ap.Elem()}
+					use = u
+				default:
+					return nil, nil
+				}
+			}
+			if cd.params[i] != nil {
+				subst[cd.params[i]] = use
+			}
+		}
 		if len(tsub) > 0 {
 			var body ast.Node = cd.expr
 			if cd.expr == nil {
 				body = cd.stmt
+			}
+			if cd.block != nil {
+				body = &ast.BlockStmt{List: cd.block}
 			}
 			if rigid(body) {
 				return nil, nil
@@ -557,6 +806,29 @@ func inlineHelpers(info *types.Info, files []*ast.File) {
 		}
 		lastCallee = fo.Origin()
 		return cd, subst
+	}
+	// the statements of a procedure body as one block: `if c { return }; rest…` becomes `if c { } else { rest… }`, a
+	// final bare return is dropped
+	var fold func(list []ast.Stmt, subst map[types.Object]ast.Expr) []ast.Stmt
+	fold = func(list []ast.Stmt, subst map[types.Object]ast.Expr) []ast.Stmt {
+		var out []ast.Stmt
+		for i, st := range list {
+			if r, isR := st.(*ast.ReturnStmt); isR && len(r.Results) == 0 {
+				break
+			}
+			if isGuard(st) {
+				iff := st.(*ast.IfStmt)
+				n := &ast.IfStmt{If: iff.If, Cond: clone(iff.Cond, subst), Body: &ast.BlockStmt{Lbrace: iff.Body.Lbrace, Rbrace: iff.Body.Rbrace}}
+				if rest := fold(list[i+1:], subst); len(rest) > 0 {
+					n.Else = &ast.BlockStmt{Lbrace: iff.Body.Rbrace, List: rest, Rbrace: iff.Body.Rbrace}
+				}
+				return append(out, n)
+			}
+			if c2 := cloneStmt(st, subst); c2 != nil {
+				out = append(out, c2)
+			}
+		}
+		return out
 	}
 	for _, f := range files {
 		astutil.Apply(f, func(c *astutil.Cursor) bool {
@@ -576,10 +848,61 @@ func inlineHelpers(info *types.Info, files []*ast.File) {
 				if !ok {
 					return true
 				}
+				// a function literal called on the spot with plain operands (what a callback parameter becomes once the
+				// helper taking it was inlined): its body
+				if lit, isLit := unparen(call.Fun).(*ast.FuncLit); isLit && !call.Ellipsis.IsValid() {
+					if lit.Type.Results == nil || len(lit.Type.Results.List) == 0 {
+						var prms []types.Object
+						for _, fl := range lit.Type.Params.List {
+							for _, nm := range fl.Names {
+								prms = append(prms, info.Defs[nm])
+							}
+						}
+						okLit := len(prms) == len(call.Args) && (procBody(lit.Body.List) || len(lit.Body.List) == 1 && pureStmt(lit.Body.List[0]))
+						subst := map[types.Object]ast.Expr{}
+						for i, a := range call.Args {
+							if !okLit || !simple(a) || prms[i] == nil {
+								okLit = false
+								break
+							}
+							subst[prms[i]] = a
+						}
+						// parameters are only read
+						if okLit {
+							ast.Inspect(lit.Body, func(n ast.Node) bool {
+								if as, isAs := n.(*ast.AssignStmt); isAs {
+									for _, l := range as.Lhs {
+										if id, isID := l.(*ast.Ident); isID && subst[info.Uses[id]] != nil {
+											okLit = false
+										}
+									}
+								}
+								if _, isFL := n.(*ast.FuncLit); isFL && n != ast.Node(lit) {
+									okLit = false
+								}
+								return true
+							})
+						}
+						if okLit {
+							tsub = nil
+							varMap = map[types.Object]*types.Var{}
+							c.Replace(&ast.BlockStmt{Lbrace: call.Pos(), List: fold(lit.Body.List, subst), Rbrace: call.End()})
+							return false
+						}
+					}
+					return true
+				}
 				cd, subst := resolve(call)
+				if cd != nil && cd.block != nil {
+					varMap = map[types.Object]*types.Var{}
+					c.Replace(&ast.BlockStmt{Lbrace: call.Pos(), List: fold(cd.block, subst), Rbrace: call.End()})
+					inlinedSites[lastCallee]++
+					return false
+				}
 				if cd == nil || cd.stmt == nil {
 					return true // (a discarded result: left as it is)
 				}
+				varMap = map[types.Object]*types.Var{}
 				if ns := cloneStmt(cd.stmt, subst); ns != nil {
 					c.Replace(ns)
 					inlinedSites[lastCallee]++
@@ -603,6 +926,7 @@ func inlineHelpers(info *types.Info, files []*ast.File) {
 				if cd == nil || cd.expr == nil {
 					return true
 				}
+				varMap = map[types.Object]*types.Var{}
 				repl := &ast.ParenExpr{Lparen: x.Pos(), X: clone(cd.expr, subst), Rparen: x.End()}
 				if tv, okT := info.Types[x]; okT {
 					info.Types[repl] = tv
@@ -638,13 +962,29 @@ func markInlinedAway(info *types.Info, files []*ast.File) {
 		})
 	}
 	for fo, fd := range decl {
-		if used[fo] || inlinedSites[fo] == 0 || len(fd.Body.List) != 1 || fd.Name.Name == "init" || fd.Name.Name == "main" {
+		if used[fo] || inlinedSites[fo] == 0 || fd.Name.Name == "init" || fd.Name.Name == "main" {
 			continue
 		}
-		// only what inlineHelpers could have replaced: one return / one plain statement
-		switch fd.Body.List[0].(type) {
-		case *ast.ReturnStmt, *ast.AssignStmt, *ast.IncDecStmt, *ast.ExprStmt, *ast.SendStmt:
-			InlinedAway[fo] = true
-		}
+		InlinedAway[fo] = true
 	}
+}
+
+func unparen(e ast.Expr) ast.Expr {
+	for {
+		p, ok := e.(*ast.ParenExpr)
+		if !ok {
+			return e
+		}
+		e = p.X
+	}
+}
+
+func recvNamed(t types.Type) *types.TypeName {
+	if pt, ok := t.(*types.Pointer); ok {
+		t = pt.Elem()
+	}
+	if n, ok := t.(*types.Named); ok {
+		return n.Origin().Obj()
+	}
+	return nil
 }
